@@ -142,3 +142,68 @@ pub fn verif_client_next(state: &str, a: u32, b: u32, d1: [u8; 32], d2: [u8; 32]
 pub fn verif_digest(cookie: &str, challenge: u32) -> [u8; 32] {
     crate::hash::challenge_digest(cookie, challenge)
 }
+
+// ---------------------------------------------------------------------------------------------------------------------
+// Probe for the node server's listing: `GetSessions` handled by the real `NodeServer::handle` on a state with two known sessions (ids 1 and 2,
+// both with a peer name unless excluded), of which `authenticated` are recorded as authenticated. Returns the node ids listed.
+struct VerifListener;
+#[cfg_attr(feature = "async-trait", ractor::async_trait)]
+impl Actor for VerifListener {
+    type Msg = crate::net::ListenerMessage;
+    type State = ();
+    type Arguments = ();
+    async fn pre_start(&self, _: ActorRef<Self::Msg>, _: ()) -> Result<(), ActorProcessingErr> {
+        Ok(())
+    }
+}
+struct VerifSess;
+#[cfg_attr(feature = "async-trait", ractor::async_trait)]
+impl Actor for VerifSess {
+    type Msg = NodeSessionMessage;
+    type State = ();
+    type Arguments = ();
+    async fn pre_start(&self, _: ActorRef<Self::Msg>, _: ()) -> Result<(), ActorProcessingErr> {
+        Ok(())
+    }
+}
+struct VerifServerActor;
+#[cfg_attr(feature = "async-trait", ractor::async_trait)]
+impl Actor for VerifServerActor {
+    type Msg = NodeServerMessage;
+    type State = ();
+    type Arguments = ();
+    async fn pre_start(&self, _: ActorRef<Self::Msg>, _: ()) -> Result<(), ActorProcessingErr> {
+        Ok(())
+    }
+}
+
+pub async fn verif_get_sessions(authenticated: &[u64], unnamed: &[u64]) -> Vec<u64> {
+    let (listener, _lh) = Actor::spawn(None, VerifListener, ()).await.unwrap();
+    let (me, _mh) = Actor::spawn(None, VerifServerActor, ()).await.unwrap();
+    let mut node_sessions = HashMap::new();
+    let mut ids = HashMap::new();
+    for n in [1u64, 2u64] {
+        let (s, _sh) = Actor::spawn(None, VerifSess, ()).await.unwrap();
+        let mut info = NodeServerSessionInformation::new(s.clone(), true, 100 + n, format!("addr{n}"));
+        if !unnamed.contains(&n) {
+            info.peer_name = Some(auth_protocol::NameMessage { name: format!("peer{n}"), flags: None, connection_string: format!("peer{n}:1"), connection_id: 0 });
+        }
+        ids.insert(n, s.get_id());
+        node_sessions.insert(s.get_id(), info);
+    }
+    let mut state = NodeServerState {
+        listener,
+        node_sessions,
+        node_id_counter: 200,
+        this_node_name: auth_protocol::NameMessage { name: "this".to_string(), flags: None, connection_string: "this:1".to_string(), connection_id: 0 },
+        subscriptions: HashMap::new(),
+        connection_ids: HashMap::new(),
+        authenticated_sessions: authenticated.iter().filter_map(|n| ids.get(n).copied()).collect(),
+    };
+    let server = NodeServer::new(0, "cookie".to_string(), "this".to_string(), "localhost".to_string(), None, None);
+    let (tx, rx) = ractor::concurrency::oneshot();
+    let _ = server.handle(me.clone(), NodeServerMessage::GetSessions(tx.into()), &mut state).await;
+    let mut listed: Vec<u64> = rx.await.map(|m| m.keys().map(|k| *k - 100).collect()).unwrap_or_default();
+    listed.sort();
+    listed
+}
